@@ -70,8 +70,10 @@ ASSUMPTIONS = [
     'ranges as base vectors, or as many non-trivial ranges as base vectors: '
     'C06_dimension_checks_spec), filltr empty or 12 numbers, at most '
     'one TRCL of 12 numbers',
-    'a lattice cell with both TRCL and a fill transformation is tied but not '
-    'swept (MCNP semantics not fixed by the reference)',
+    'a lattice cell with both TRCL and a fill transformation is swept against '
+    'the rule "TRCL moves the cell, the fill transformation alone places the '
+    'filler" (the rule of mcnpref.locate for ordinary filled cells and of the '
+    'upstream decks trcl_filltr*.imcnp validated against MCNP)',
 ]
 HEADER = ('From Coq Require Import List ZArith Bool String Ascii PrimFloat.\n'
           'From T4V Require Import Base.Str Base.Scalar C06.Model C06.Exec.\n'
@@ -935,15 +937,10 @@ def deck_stream(res, rng, quick):
         gen_rng = rng
         if k < len(corpus):
             force, gen_rng = corpus[k]
-        if broken and rng.random() < 0.3:
-            force = {'both_tr': True, 'lat_trcl': True, 'homogeneous': True,
-                     'fill_tr': True}
         deck, meta = c06_gen.gen_deck(gen_rng, force)
         fault = None
-        if broken and not force:
+        if broken:
             fault = c06_gen.break_deck(rng, deck, meta)
-        elif broken:
-            fault = 'trcl_and_filltr'
         text = deckmod.render(deck)
         args = deckmod.lattice_args(deck)
         conv, records = run_deck(deck, args)
@@ -959,6 +956,8 @@ def deck_stream(res, rng, quick):
             res.count('lattice TRCL')
         if meta['cont_tr']:
             res.count('container transformed')
+        if meta['both_tr'] and not broken:
+            res.count('lattice with TRCL and a fill transformation (swept)')
         if meta['nested']:
             res.count('nested lattice as filler')
         if meta['degenerate_low_dim']:
@@ -1065,6 +1064,11 @@ CORPUS_SHAPES = [
      'fill_tr_mode': 'rot', 'lat_trcl': False},
     {'d': 3, 'kind': 'ortho', 'rpp': False, 'homogeneous': True,
      'fill_tr': True, 'fill_tr_mode': 'rot', 'lat_trcl': False},
+    # TRCL and a rotating fill transformation on the same lattice cell
+    {'d': 2, 'kind': 'rot', 'homogeneous': True, 'fill_tr': True,
+     'fill_tr_mode': 'rot', 'lat_trcl': True, 'both_tr': True},
+    {'d': 1, 'kind': 'ortho', 'homogeneous': True, 'fill_tr': True,
+     'fill_tr_mode': 'transl', 'lat_trcl': True, 'both_tr': True},
     # TRCL on the lattice cell, array fill
     {'d': 2, 'kind': 'skew', 'homogeneous': False, 'lat_trcl': True},
     {'d': 3, 'kind': 'rot', 'homogeneous': False, 'lat_trcl': True,
